@@ -1,2 +1,128 @@
-(* C18 — property theorems (stage 0: thin loop) *)
+(* C18 — property theorems.  Nothing but statements, `exact`, Print Assumptions.
+   via_modify is the Gallina transcription of ViaModifier.ModifyRequest with the
+   shapes/constants of the current source (Tables.v); a tag is name ++ "-" ++ hex(10 random bytes). *)
 From G01 Require Import Via ViaCheck ViaProofs Ob18.
+
+(* The forwarded request carries ONE Via field whose list elements are all elements received
+   (over all field lines, in order) followed by exactly this instance's element, with the
+   protocol version the client used; no other field is touched. *)
+Theorem T18_appends_after_existing : forall tag maj min h h',
+  tag_ok tag = true -> maj < 10 -> min < 10 ->
+  via_modify tag maj min h = ViaOk h' ->
+  exists v, h_values via_key h' = [v] /\
+            chain [v] = chain (h_values via_key h) ++ [elem tag maj min] /\
+            (forall k, k <> via_key -> raw_get k h' = raw_get k h).
+Proof. exact f_appends. Qed.
+Print Assumptions T18_appends_after_existing.
+
+(* The tag text anywhere in any received Via field line => 400, connection closed, nothing forwarded. *)
+Theorem T18_detects_own_element : forall tag maj min h l,
+  tag <> [] -> In l (h_values via_key h) -> contains l tag = true ->
+  via_modify tag maj min h = ViaRefused 400 true /\
+  exchange_of (via_modify tag maj min h) = Answered 400.
+Proof. exact f_detects_own. Qed.
+Print Assumptions T18_detects_own_element.
+
+(* ... in particular when some RFC 7230 list element of the chain has the tag as its received-by
+   (whatever protocol, white space, comment, or later elements surround it). *)
+Theorem T18_detects_own_list_element : forall tag maj min h,
+  tag <> [] -> own_elem tag (h_values via_key h) = true ->
+  via_modify tag maj min h = ViaRefused 400 true /\
+  exchange_of (via_modify tag maj min h) = Answered 400.
+Proof. exact f_detects_own_element. Qed.
+Print Assumptions T18_detects_own_list_element.
+
+(* A loop of one instance ends at its first repetition. *)
+Theorem T18_self_loop : forall tag maj min h h' maj' min',
+  via_modify tag maj min h = ViaOk h' ->
+  via_modify tag maj' min' h' = ViaRefused 400 true /\
+  exchange_of (via_modify tag maj' min' h') = Answered 400.
+Proof. exact f_self_loop. Qed.
+Print Assumptions T18_self_loop.
+
+(* A -> B -> A: for ANY intermediate B whose effect on the Via field lines keeps A's tag text
+   somewhere in the chain, A refuses the request when it comes back. *)
+Theorem T18_two_proxy_loop : forall tag maj min h h' (B : list str -> list str) h'' maj' min',
+  tag <> [] ->
+  (forall ls, own_sub tag ls = true -> own_sub tag (B ls) = true) ->
+  via_modify tag maj min h = ViaOk h' ->
+  h_values via_key h'' = B (h_values via_key h') ->
+  via_modify tag maj' min' h'' = ViaRefused 400 true /\
+  exchange_of (via_modify tag maj' min' h'') = Answered 400.
+Proof. exact f_two_proxy_loop. Qed.
+Print Assumptions T18_two_proxy_loop.
+
+(* Such B: another instance of this modifier (any tag, also one with the same name), a hop that
+   merges all field lines into one, a hop that splits them at commas (tag without comma). *)
+Theorem T18_hops_keep_tag : forall tag,
+  (forall tag' maj min h h', via_modify tag' maj min h = ViaOk h' ->
+      own_sub tag (h_values via_key h) = true -> own_sub tag (h_values via_key h') = true) /\
+  (forall ls, own_sub tag ls = true -> own_sub tag [join comma_sp ls] = true) /\
+  (~ In 44 tag -> forall ls, own_sub tag ls = true -> own_sub tag (flat_map (split_byte 44) ls) = true).
+Proof. exact f_hops_keep_tag. Qed.
+Print Assumptions T18_hops_keep_tag.
+
+(* Chains in which the tag text does not occur are forwarded. *)
+Theorem T18_foreign_forwarded : forall tag maj min h,
+  tag_ok tag = true -> own_sub tag (h_values via_key h) = false ->
+  exists h', via_modify tag maj min h = ViaOk h' /\
+             exchange_of (via_modify tag maj min h) = ForwardedOn h'.
+Proof. exact f_foreign_forwarded. Qed.
+Print Assumptions T18_foreign_forwarded.
+
+(* ... and the element of another instance configured with the SAME name is such a chain element:
+   "<proto> name-hex'" (proto shorter than 20 bytes) never contains "name-hex" when hex <> hex'. *)
+Theorem T18_same_name_other_instance : forall name h1 h2 p,
+  hex20 h1 = true -> hex20 h2 = true -> h1 <> h2 -> (length p < 20)%nat ->
+  contains (p ++ [32] ++ name ++ [45] ++ h2) (name ++ [45] ++ h1) = false.
+Proof. exact same_name_other_instance. Qed.
+Print Assumptions T18_same_name_other_instance.
+
+(* The error carried by the refusal is answered with status 400 by HTTPProxy.errorResponse
+   (handler list of the current source). *)
+Theorem T18_status_400 : status_of_error_status via_loop_status = 400.
+Proof. exact status_400. Qed.
+Print Assumptions T18_status_400.
+
+(* The model satisfies, for every input, the predicate that each run evaluates on the implementation ... *)
+Theorem T18_model_satisfies_oracle : forall tag maj min h,
+  tag_ok tag = true -> maj < 10 -> min < 10 ->
+  via_prop_ok tag maj min h (via_modify tag maj min h) = true.
+Proof. exact f_model_satisfies_oracle. Qed.
+Print Assumptions T18_model_satisfies_oracle.
+
+(* ... and that predicate means what the property says. *)
+Theorem T18_oracle_sound : forall tag maj min h r,
+  via_prop_ok tag maj min h r = true -> ViaSpec tag maj min h r.
+Proof. exact via_prop_ok_sound. Qed.
+Print Assumptions T18_oracle_sound.
+
+(* The shape the source had before commit 88c7576 (first Via field line only) is refuted: own
+   element on the second line is forwarded and the second line is lost ... *)
+Theorem T18_first_line_only_refuted : exists tag h h',
+  tag_ok tag = true /\ own_elem tag (h_values via_key h) = true /\
+  via_modify_gen false tag 1 1 h = ViaOk h' /\
+  chain (h_values via_key h') <> chain (h_values via_key h) ++ [elem tag 1 1].
+Proof. exact legacy_shape_refuted. Qed.
+Print Assumptions T18_first_line_only_refuted.
+
+(* ... and an intermediate hop of that shape is NOT a B as required by T18_two_proxy_loop. *)
+Theorem T18_first_line_only_hop_loses_tag : exists tag tag' h h',
+  own_sub tag (h_values via_key h) = true /\
+  via_modify_gen false tag' 1 1 h = ViaOk h' /\
+  own_sub tag (h_values via_key h') = false.
+Proof. exact legacy_hop_loses_tag. Qed.
+Print Assumptions T18_first_line_only_hop_loses_tag.
+
+(* Non-vacuity: a concrete chain over two field lines with a comment is forwarded with the
+   element appended, and comes back refused. *)
+Example T18_example :
+  let tag := mk_tag (b "forwarder") (b "00112233445566778899") in
+  let h := [(b "Accept", [b "*/*"]); (via_key, [b "1.0 alpha (x)"; b "1.1 forwarder-aabbccddeeff00112233"])] in
+  tag_ok tag = true /\
+  via_modify tag 1 0 h =
+    ViaOk ((via_key, [b "1.0 alpha (x), 1.1 forwarder-aabbccddeeff00112233, 1.0 forwarder-00112233445566778899"])
+           :: [(b "Accept", [b "*/*"])]) /\
+  via_modify tag 1 1 [(via_key, [b "1.0 alpha (x)"; b "1.1 forwarder-aabbccddeeff00112233, 1.0 forwarder-00112233445566778899"])]
+    = ViaRefused 400 true.
+Proof. exact (conj eq_refl (conj eq_refl eq_refl)). Qed.
